@@ -76,8 +76,15 @@ pub fn worker_main(args: &[String]) -> i32 {
     let deadline_s: u64 = args[8].parse().unwrap();
     let t0 = Instant::now();
     crate::ctl::install_panic_hook();
+    // swarm: odd workers run txtpp with a logger installed at trace level (a library caller may)
+    if k % 2 == 1 {
+        crate::ctl::install_discard_logger();
+    }
     let env = Env::new(&scratch);
     let mut stats = Stats::default();
+    if k % 2 == 1 {
+        stats.count("config.logger_installed_at_trace");
+    }
     let mut cache = engines::common::Cache::default();
     let per = engines::per_project(&prop);
     let out = std::io::stdout();
